@@ -1,5 +1,9 @@
 import ColoVerif.Gen.Api
+import ColoVerif.Gen.ApiSizes
+import ColoVerif.Gen.ApiExpansion
+import ColoVerif.Gen.WriteSets
 import ColoVerif.Proofs.BusyLemmas
+import ColoVerif.Proofs.BusySizes
 import ColoVerif.Model.LegacyBusy
 import ColoVerif.Properties.C01
 /-
@@ -129,5 +133,231 @@ example :
 
 example : ∃ f ∈ Api.setters, f.name ∈ structuralSetters := by decide
 example : (Tr.cbEnd true (.done false)).endsThrowing = true := by decide
+
+/-! ## "… and the circuit is internally consistent": the sizes of the member vectors
+
+The theorems below are about `Gen.ApiSizes` (every setter, the constructor and the expansion API with the effect
+of each member write on the length of the written member — regenerated from `src/coloquinte.cpp` on every run),
+`Gen.Api.placementCalls` and `Gen.WriteSets.writeSites`, under the size semantics of `Model/BusySizes.lean`
+(which `drv_C10` executes for every setter call the harness makes: `szset`). -/
+section Sizes
+open ColoVerif.BusySizes
+
+/-- Forgetting the size effects gives back the skeletons the other theorems of C10/C19 are about: the sized setters
+are `Gen.Api.setters`, the sized constructor is `Gen.ApiExpansion.constructors`, each sized expansion method is in
+`Gen.ApiExpansion.validated` and every method there that writes a member has a sized version; a written `netLimits_`
+always comes with its new last element. -/
+theorem sized_tables_erase_to_api :
+    ApiSizes.setters.map SFn.erased = Api.setters.map FnDef.view ∧
+    ApiSizes.constructors.map SFn.erased = ApiExpansion.constructors.map FnDef.view ∧
+    (∀ f ∈ ApiSizes.expansion, (ApiExpansion.validated.map FnDef.view).contains f.erased = true) ∧
+    (∀ g ∈ ApiExpansion.validated, (g.body.any fun s => match s with | .assign _ => true | _ => false) = true →
+      (ApiSizes.expansion.map (·.name)).contains g.name = true) ∧
+    (∀ f ∈ ApiSizes.setters ++ ApiSizes.constructors ++ ApiSizes.expansion, f.body.all SStmt.wf = true) := by
+  decide
+
+/-- Every public non-const method of `Circuit` (`Gen.ApiExpansion.publicMutators`: the whole class surface) is one of:
+a setter, a placement call, an expansion method — the three kinds of `ApiCall` —, an inline `(int effort)` wrapper that
+only calls placement calls, or a method whose skeleton writes no member (the Disruption methods).  So a history of
+`ApiCall`s is any history of calls of the public API. -/
+theorem every_public_mutator_is_an_api_call :
+    ∀ m ∈ ApiExpansion.publicMutators,
+      (ApiSizes.setters.map (·.name)).contains m.1 = true ∨ (Api.placementCalls.map (·.name)).contains m.1 = true ∨
+      (ApiSizes.expansion.map (·.name)).contains m.1 = true ∨
+      (ApiExpansion.effortWrappers.any fun w => w.1 == m.1 &&
+        w.2.all fun c => (Api.placementCalls.map (·.name)).contains c.1) = true ∨
+      (ApiExpansion.validated.any fun g => g.name == m.1 &&
+        g.body.all fun s => match s with | .assign _ => false | _ => true) = true := by
+  decide
+
+/-- the member a write site of the placers targets (`none`: the in-use flag or a method call) -/
+def targetMember : WriteSets.Target → Option String
+  | .cellX_ => some "cellX_"
+  | .cellY_ => some "cellY_"
+  | .cellOrientation_ => some "cellOrientation_"
+  | .hasCellSizeUpdate_ => some "hasCellSizeUpdate_"
+  | .hasNetUpdate_ => some "hasNetUpdate_"
+  | .otherField n => some n
+  | .isInUse_ => none
+  | .method _ => none
+
+def siteWrite (w : WriteSets.WriteSite) : Option (String × WKind) :=
+  match w.kind, targetMember w.target with
+  | .element, some m => some (m, .element)
+  | .whole, some m => some (m, .whole)
+  | _, _ => none
+
+/-- what the placers (everything reachable from the three placement calls) write, from `Gen.WriteSets` -/
+def placerWrites : List (String × WKind) := WriteSets.writeSites.filterMap siteWrite
+
+/-- a write site is an element write or a whole write of a data member, or the scoped guard of the flag — not a
+non-const method call on the circuit or on one of its members -/
+def siteUnderstood (w : WriteSets.WriteSite) : Bool :=
+  match w.kind, w.target with
+  | .scoped, .isInUse_ => true
+  | .scopedRestore, .isInUse_ => true
+  | .element, t => (targetMember t).isSome
+  | .whole, t => (targetMember t).isSome
+  | _, _ => false
+
+/-- **The placers cannot change a length.**  Every site at which the code reachable from the placement calls can
+modify the circuit is an element write `member[i] = …` (which cannot change `member.size()`), a whole write of a
+member that is not one of the vectors of the invariant (the two scalar update flags), or the scoped in-use guard.
+There is no `resize`/`push_back`/`clear`/whole assignment of a vector and no call of a non-const `Circuit` method. -/
+theorem placer_writes_keep_lengths :
+    WriteSets.writeSites.all siteUnderstood = true ∧
+    (∀ p ∈ placerWrites, p.2 = WKind.whole → p.1 ∉ trackedMembers) ∧
+    WriteSets.constEscapes.length = 0 := by
+  decide
+
+/-- the tables of the public API, all regenerated from the source -/
+def apiTables : Tables := ⟨ApiSizes.setters, ApiSizes.expansion, Api.placementCalls, placerWrites⟩
+
+/-- **The constructor establishes the invariant.**  `Circuit(n)` on a default-constructed object (every vector
+empty): for `n ≥ 0` it returns with `nbCells() = n`, the circuit not in use and consistent sizes; for `n < 0` it throws
+(no object exists). -/
+theorem constructor_sizes_consistent :
+    ∀ f ∈ ApiSizes.constructors, ∀ (args : List Arg) (free : Int),
+      (0 ≤ (argAt args 0).ival →
+        (execS noCallS args free f.body ⟨false, Sz.empty⟩).out = .normal ∧
+        (execS noCallS args free f.body ⟨false, Sz.empty⟩).st.inUse = false ∧
+        (execS noCallS args free f.body ⟨false, Sz.empty⟩).st.sz.nbCells = (argAt args 0).ival ∧
+        SizesConsistent (execS noCallS args free f.body ⟨false, Sz.empty⟩).st.sz) ∧
+      ((argAt args 0).ival < 0 → (execS noCallS args free f.body ⟨false, Sz.empty⟩).out = .thrown) := by
+  simp only [ApiSizes.constructors, List.forall_mem_cons]
+  repeat' apply And.intro
+  all_goals first
+    | exact fun x hx => absurd hx List.not_mem_nil
+    | (intro args free
+       simp only [execS, cond_lt, Expr.eval, envOf_arg]
+       constructor
+       · intro h
+         rw [if_neg (by omega)]
+         refine ⟨rfl, rfl, ?_, ?_⟩
+         · simp [applyEff, LExpr.eval, Sz.set, Sz.nbCells, Sz.empty]
+         · constructor <;> simp [applyEff, LExpr.eval, Sz.set, Sz.nbCells, Sz.nbNets, Sz.nbPins, Sz.empty]
+       · intro h
+         rw [if_pos (by omega)])
+
+set_option linter.unusedSimpArgs false in
+/-- **Every setter and every expansion method preserves the invariant** — for all arguments (a vector argument has a
+non-negative `size()`), in every state (in use or not), whether the call returns, returns early or throws at any of
+its checks. -/
+theorem setter_preserves_sizes :
+    ∀ f ∈ ApiSizes.setters ++ ApiSizes.expansion, ∀ (args : List Arg) (free : Int) (st : SSt),
+      ArgsOk args → SizesConsistent st.sz → SizesConsistent (execS noCallS args free f.body st).st.sz := by
+  simp only [ApiSizes.setters, ApiSizes.expansion, List.cons_append, List.nil_append, List.forall_mem_cons]
+  repeat' apply And.intro
+  all_goals first
+    | exact fun x hx => absurd hx List.not_mem_nil
+    | (intro args free st ha hc
+       have a0 := argLen_nonneg ha 0
+       have a1 := argLen_nonneg ha 1
+       have a2 := argLen_nonneg ha 2
+       have a3 := argLen_nonneg ha 3
+       have a4 := argLen_nonneg ha 4
+       have hc' := hc
+       obtain ⟨h1, h2, h3, h4, h5, h6, h7, h8, h9, h10, h11, h12⟩ := hc'
+       simp only [Sz.nbCells, Sz.nbNets, Sz.nbPins] at h1 h2 h3 h4 h5 h6 h7 h8 h9 h10 h11 h12
+       simp only [execS, cond_eq, cond_lt, cond_le, cond_or, cond_and, cond_not, cond_empty, Expr.eval, envOf_arg,
+         envOf_nbCells, envOf_nbNets]
+       repeat' refine res_ite (P := fun r => SizesConsistent r.st.sz) (fun _ => ?_) (fun _ => ?_)
+       all_goals first
+         | exact hc
+         | (constructor <;>
+             simp [applyEff, LExpr.eval, Sz.set, Sz.nbCells, Sz.nbNets, Sz.nbPins] at * <;> omega))
+
+/-- … as a statement about calls by name (`runFnS`; a name that is not in the table leaves the circuit alone). -/
+theorem api_call_preserves_sizes :
+    ∀ (c : ApiCall) (st : SSt), c.argsOk → SizesConsistent st.sz → SizesConsistent (runApi apiTables c st).st.sz := by
+  intro c st ha h
+  have hs := setter_preserves_sizes
+  refine runApi_preserves SizesConsistent apiTables ?_ ?_ ?_ c st ha h
+  · exact runFnS_preserves _ _ (fun f hf => hs f (List.mem_append_left _ hf))
+  · exact runFnS_preserves _ _ (fun f hf => hs f (List.mem_append_right _ hf))
+  · intro m n s hm hc
+    exact consistent_set_untracked n (placer_writes_keep_lengths.2.1 (m, .whole) hm rfl) hc
+
+/-- **The sizes are consistent after any history.**  Start from the constructor (with any argument it accepts) and
+make any finite sequence of calls of the public API, each with arbitrary arguments: setters (accepted, refused by one
+of their checks, refused because the circuit is busy), expansion calls, and placement calls whose stage is an
+arbitrary trace — callbacks that call any setters and any *nested placement calls* to any depth, element/whole writes
+by the placers at the sites of `Gen.WriteSets`, exceptions of setters, callbacks, nested calls and stages at any point.
+The circuit the last call leaves has consistent sizes.  Histories and traces are prefix-closed, so this holds after
+every call of the history and at every point inside every stage. -/
+theorem sizes_consistent_after_any_history :
+    ∀ (ctor : SCall) (cs : List ApiCall),
+      (runCtorS ApiSizes.constructors ctor).out = .normal → (∀ c ∈ cs, c.argsOk) →
+      SizesConsistent (runHistory apiTables cs (runCtorS ApiSizes.constructors ctor).st).sz := by
+  intro ctor cs hn ha
+  have h0 : SizesConsistent (runCtorS ApiSizes.constructors ctor).st.sz := by
+    unfold runCtorS runFnS lookupS at hn ⊢
+    cases hf : ApiSizes.constructors.find? (fun f => f.name == ctor.name) with
+    | none => rw [hf] at hn; cases hn
+    | some f =>
+      rw [hf] at hn
+      simp only [] at hn ⊢
+      have hc := constructor_sizes_consistent f (List.mem_of_find?_eq_some hf) ctor.args ctor.free
+      by_cases hneg : 0 ≤ (argAt ctor.args 0).ival
+      · exact (hc.1 hneg).2.2.2
+      · rw [hc.2 (by omega)] at hn; cases hn
+  have hs := setter_preserves_sizes
+  refine runHistory_preserves SizesConsistent apiTables ?_ ?_ ?_ cs _ ha h0
+  · exact runFnS_preserves _ _ (fun f hf => hs f (List.mem_append_left _ hf))
+  · exact runFnS_preserves _ _ (fun f hf => hs f (List.mem_append_right _ hf))
+  · intro m n s hm hc
+    exact consistent_set_untracked n (placer_writes_keep_lengths.2.1 (m, .whole) hm rfl) hc
+
+/-- **The size clauses of `Circuit::check()` follow from the invariant.**  `Gen.ApiSizes.checkClauses` is `check()` as
+translated from the source (13 `if (c) throw` clauses) and `Gen.ApiSizes.getters` the inline `nbCells()`/`nbNets()`/
+`nbPins()`.  (1) The getters are what the model reads from the sizes.  (2) Twelve clauses compare sizes (the seven
+per-cell vectors `check()` looks at against `nbCells()`, `netLimits_.empty()`, `netWeights_` against `nbNets()`, the three
+per-pin vectors against `nbPins()`) and are `checkSizeClauses`; exactly one, `netLimits_.front() != 0`, is about a value
+and is not covered (nor are the values C10 does not speak about: sortedness of the limits, pin cells in range — C19 has
+the refusals).  (3) On consistent sizes no size clause fires.  (4) Conversely the size clauses say everything the
+invariant says except `cellRowPolarity_.size() == nbCells()`, which `check()` omits and the invariant has. -/
+theorem check_size_clauses_hold :
+    (∀ s : Sz, getterVal ApiSizes.getters s "nbCells" = s.nbCells ∧ getterVal ApiSizes.getters s "nbNets" = s.nbNets ∧
+      getterVal ApiSizes.getters s "nbPins" = s.nbPins) ∧
+    (∀ s : Sz, ApiSizes.checkClauses.filterMap (·.fires ApiSizes.getters s) = (checkSizeClauses s).map (·.1)) ∧
+    ApiSizes.checkClauses.filter (fun c => (c.fires ApiSizes.getters Sz.empty).isNone) = [.frontNe "netLimits_" 0] ∧
+    (∀ s : Sz, SizesConsistent s → ∀ c ∈ ApiSizes.checkClauses, c.fires ApiSizes.getters s ≠ some true) ∧
+    (∀ s : Sz, checkPasses (checkSizeClauses s) = true ∧ s.len "cellRowPolarity_" = s.nbCells ∧ 0 ≤ s.len "netLimits_" ↔
+      SizesConsistent s) := by
+  have h2 : ∀ s : Sz, ApiSizes.checkClauses.filterMap (·.fires ApiSizes.getters s) = (checkSizeClauses s).map (·.1) :=
+    fun s => rfl
+  refine ⟨fun s => ⟨rfl, rfl, rfl⟩, h2, by decide, ?_, checkSizeClauses_pass_iff⟩
+  intro s hs c hc hfire
+  have hp := checkSizeClauses_pass hs
+  have hm : true ∈ ApiSizes.checkClauses.filterMap (·.fires ApiSizes.getters s) :=
+    List.mem_filterMap.mpr ⟨c, hc, hfire⟩
+  rw [h2 s, List.mem_map] at hm
+  obtain ⟨it, hit, ht⟩ := hm
+  unfold checkPasses at hp
+  have := List.all_eq_true.mp hp it hit
+  simp [ht] at this
+
+/-! Non-vacuity.  The constructor returns for `n = 3`; a history with a refused `setCellX` (wrong length), an
+`addNet`, an `expandCellsByFactor`, and a `placeDetailed` whose callback calls `setCellY`, a nested `legalize` (whose
+stage writes `cellX_[i]` and throws) and then throws itself; the arguments are well-formed; the result is consistent
+(by `decide` on the executable form) and has 3 cells, 1 net, 2 pins. -/
+def exampleHistory : List ApiCall := [
+  .setter ⟨"setCellX", [⟨4, [], 0⟩], 0⟩,
+  .setter ⟨"addNet", [⟨2, [0, 2], 0⟩, ⟨2, [], 0⟩, ⟨2, [], 0⟩, ⟨0, [], 0⟩], 0⟩,
+  .expansion ⟨"expandCellsByFactor", [⟨3, [], 0⟩], 0⟩,
+  .placement "placeDetailed"
+    (.write "hasNetUpdate_" .whole 0 (.setter ⟨"setCellY", [⟨3, [], 0⟩], 0⟩
+      (.nested "legalize" (.write "cellX_" .element 0 (.done true)) (.cbEnd true (.done false)))))]
+
+example : (runCtorS ApiSizes.constructors ⟨"Circuit", [⟨0, [], 3⟩], 0⟩).out = .normal := by decide
+example : ∀ c ∈ exampleHistory, c.argsOk := by
+  simp [exampleHistory, ApiCall.argsOk, STr.argsOk, ArgsOk]
+example : (runHistory apiTables exampleHistory (runCtorS ApiSizes.constructors ⟨"Circuit", [⟨0, [], 3⟩], 0⟩).st).sz.toList
+    = [3, 3, 3, 3, 3, 3, 3, 3, 2, 1, 2, 2, 2, 0, 2] := by decide
+/-- … and the invariant is not trivially true: a `cellX_` of the wrong length violates it. -/
+example : ¬ SizesConsistent (Sz.ofList [3, 3, 3, 3, 3, 4, 3, 3, 1, 0, 0, 0, 0, 0, 0]) := by
+  rw [← consistent_iff]; decide
+
+end Sizes
 
 end ColoVerif.C10
